@@ -34,3 +34,12 @@ def fault_run(nq=150, nt=400, sq=4, st=10, focus=None, whale=False):
         if whale:
             r[k]["VERIF_WHALE"] = "1"
     return r
+
+
+def gentrip_run(nq=150, nt=300, sq=4, st=8, focus=None):
+    """history mode in which, now and then between two blocks, one module's state goes through its own ExportGenesis -> InitGenesis
+    (an export/import restart of that module; harness/gentrip.go)"""
+    r = hist_run(nq, nt, sq, st, focus=focus)
+    for k in ("env_quick", "env_thorough"):
+        r[k]["VERIF_GENTRIP"] = "1"
+    return r
